@@ -468,13 +468,12 @@ def extract_flags(includes=()):
     return out
 
 
-def parse_extract(relfile, names, prelude_file, defines=(), decls=(), includes=()):
-    """Cut `names` (functions) verbatim out of the real file and parse them behind the prelude.
+def extract_text(relfile, names, prelude_file, defines=(), decls=(), includes=()):
+    """Text of the extraction translation unit (prelude + the functions `names` cut verbatim out of the real file, #line directives
+    keep the real locations) -> (text, info, cut texts, prelude text).  No clang run: the native harnesses (replay, bounded oracles)
+    compile this text themselves.
     defines = [(header relfile, macro-name regex)]: #define lines cut verbatim from real headers, inserted at the
-    prelude's /*@CUT-DEFINES@*/ marker."""
-    key = (core.REPO, relfile, tuple(names), prelude_file, tuple(defines), tuple(decls), tuple(includes))
-    if key in _CACHE:
-        return _CACHE[key]
+    prelude's /*@CUT-DEFINES@*/ marker; decls likewise at /*@CUT-DECLS@*/."""
     path = repo(relfile)
     if not os.path.exists(path):
         raise Unsupported("source file %s missing" % path)
@@ -502,7 +501,15 @@ def parse_extract(relfile, names, prelude_file, defines=(), decls=(), includes=(
         info["functions"][nm] = {"first_line": line, "last_line": line + text.count("\n"),
                                  "sha256": hashlib.sha256(text.encode()).hexdigest(), "bytes": len(text)}
         parts.append('#line %d "%s"\n%s\n' % (line, path, text))
-    tu_text = "\n".join(parts)
+    return "\n".join(parts), info, texts, prelude
+
+
+def parse_extract(relfile, names, prelude_file, defines=(), decls=(), includes=()):
+    """Cut `names` (functions) verbatim out of the real file and parse them behind the prelude (see extract_text)."""
+    key = (core.REPO, relfile, tuple(names), prelude_file, tuple(defines), tuple(decls), tuple(includes))
+    if key in _CACHE:
+        return _CACHE[key]
+    tu_text, info, texts, prelude = extract_text(relfile, names, prelude_file, defines, decls, includes)
     args = ["-x", "c"] + extract_flags(includes) + ["-"]
     ast, _ = _run_clang(args, stdin_text=tu_text)
     tu = TU(ast, HOST, relfile, "extract", "clang -fsyntax-only -Xclang -ast-dump=json " + " ".join(args) + " < (prelude + verbatim cut)",
